@@ -163,6 +163,14 @@ func (g *asgGen) stmt() (Stmt, string) {
 		t := g.path(2)
 		return &ForIn{V: "lv", It: Arr(t), Body: Blk(ES(Asg(Mem(V("lv"), c09Keys[g.rng.IntN(len(c09Keys))]), g.value())))}, "store-via-loopvar"
 	case 14:
+		if g.rng.IntN(3) == 0 {
+			// scalars reached through a loop variable are copies: stepping them leaves the source alone
+			t := g.path(2)
+			if g.rng.IntN(2) == 0 {
+				return &ForIn{V: "lv", It: t, Body: Blk(ES(&IncDec{Op: "++", X: V("lv")}), ES(&Assign{Op: "+=", L: V("lv"), R: N("5")}))}, "scalar-loopvar-step"
+			}
+			return &ForIn{V: "lk", V2: "lv", It: t, Body: Blk(ES(&IncDec{Op: "--", X: V("lv")}), ES(Asg(V("lk"), S("changed"))))}, "scalar-loopvar-step"
+		}
 		return ES(Asg(V([]string{"v0", "v1", "v2"}[g.rng.IntN(3)]), V([]string{"v0", "v1", "v2", "$"}[g.rng.IntN(4)]))), "alias"
 	}
 	// container stored into a container
@@ -412,13 +420,13 @@ func c09Cases(tier string) int {
 	if tier == "thorough" {
 		return len(c09AliasForms) + 300000 + 200000
 	}
-	return len(c09AliasForms) + 6000 + 6000
+	return len(c09AliasForms) + 20000 + 20000
 }
 
 func c09Run(c *Case) {
 	i := c.Idx
 	na := len(c09AliasForms)
-	nh := 6000
+	nh := 20000
 	if c.Tier == "thorough" {
 		nh = 300000
 	}
